@@ -47,7 +47,7 @@ func genC33(t *rapid.T) c33Case {
 		c.Ops = append(c.Ops, adv())
 		var cl clsim.Call
 		if active {
-			switch rapid.IntRange(0, 5).Draw(t, "call") {
+			switch rapid.IntRange(0, 7).Draw(t, "call") {
 			case 0, 1:
 				cl = clsim.Call{API: "Sleep", DurMs: rapid.SampledFrom([]int{1000, 1000, 2500, 7000}).Draw(t, "sleep_ms")}
 				active = false
@@ -60,6 +60,10 @@ func genC33(t *rapid.T) c33Case {
 				cl = clsim.Call{API: "Publish", Topic: "ab", QoS: uint8(rapid.IntRange(0, 2).Draw(t, "qos")), Payload: []byte("k")}
 			case 4:
 				cl = clsim.Call{API: "Subscribe", Topic: "t/a", QoS: 1}
+			case 6, 7:
+				// the application's own Ping() next to the keep-alive pings (on the wire both are
+				// PINGREQs without a client ID; the gateway drops their transmissions alike)
+				cl = clsim.Call{API: "Ping"}
 			default:
 				cl = clsim.Call{API: "Register", Topic: fmt.Sprintf("t/%d", i)}
 			}
@@ -219,8 +223,8 @@ func checkKeepalive(c c33Case, s *clsim.Sim, r *vf.Result) {
 func TestC33(t *testing.T) {
 	vf.Check(t, vf.Prop[c33Case]{
 		ID: "C33", Name: "client-keepalive", Bubble: true,
-		Rule: "real client with KeepAlive 2/3/5/30 s (RetryDelay 1 s, RetryCount 1-3) against a scripted gateway that answers everything but drops 0..RetryCount transmissions of selected keep-alive pings; 2-10 API calls (Sleep of 1-7 s, Disconnect, Publish QoS 0-2, Subscribe, Register, reconnect) separated by time advances drawn relative to the keep-alive period (K, K/2, K/4, 2K, 3K, 1 s; exactly, +-1 ns, +-1 ms, +0.5 s). Non-trivial = an API call starts within 1 s after a keep-alive PINGREQ, or a ping transmission is dropped; distinct by case.",
-		Assumptions: []string{"keep-alive PINGREQs carry no client ID, the wake-up PINGREQ carries it; Client.Ping is not called in this check", "RetryDelay (1 s) is below every KeepAlive used, so while the client is active two consecutive PINGREQ datagrams are never more than KeepAlive apart (+5 ms)", "the awake state (after Sleep returned, before reconnecting) is not judged"},
+		Rule: "real client with KeepAlive 2/3/5/30 s (RetryDelay 1 s, RetryCount 1-3) against a scripted gateway that answers everything but drops 0..RetryCount transmissions of selected keep-alive pings; 2-10 API calls (Sleep of 1-7 s, Disconnect, Publish QoS 0-2, Subscribe, Register, Ping, reconnect) separated by time advances drawn relative to the keep-alive period (K, K/2, K/4, 2K, 3K, 1 s; exactly, +-1 ns, +-1 ms, +0.5 s). Non-trivial = an API call starts within 1 s after a keep-alive PINGREQ, or a ping transmission is dropped; distinct by case.",
+		Assumptions: []string{"keep-alive PINGREQs carry no client ID, the wake-up PINGREQ carries it; Client.Ping() is called only while the client is active and has returned before the next call starts, so a PINGREQ without client ID seen while asleep or disconnected is a keep-alive ping (or a retransmission of one)", "RetryDelay (1 s) is below every KeepAlive used, so while the client is active two consecutive PINGREQ datagrams are never more than KeepAlive apart (+5 ms)", "the awake state (after Sleep returned, before reconnecting) is not judged"},
 		Gen:         genC33,
 		Run:         runC33,
 	})
